@@ -45,6 +45,12 @@ class UThZr(FuelMaterial):
         self.zrFrac = 0.09999  # custom param REM
         self.thFrac = 0.00001
 
+    def density(self, Tk=None, Tc=None):
+        """Mass density in g/cc expanded in 3D: the 2D-expanded one with the third direction."""
+        Tk = getTk(Tc, Tk)
+        dLL = self.linearExpansionPercent(Tk=Tk)
+        return self.pseudoDensity(Tk=Tk) / (1.0 + dLL / 100.0)
+
     def pseudoDensity(self, Tk=None, Tc=None):
         """Calculate the mass density in g/cc of U-Zr alloy with various percents."""
         zrFrac = self.zrFrac
